@@ -237,7 +237,7 @@ pub fn corruptions(r: &Req) -> Vec<(&'static str, Vec<u8>)> {
         out.push(("leading_crlf", b));
     }
     // header corruptions: add one bad header line at the front / end of the block
-    let bad_headers: [(&'static str, &[u8]); 25] = [
+    let bad_headers: [(&'static str, &[u8]); 27] = [
         ("hdr_nocolon", b"NoColonHere"),
         ("hdr_nonutf8", b"X-Bad: \xff\xfe"),
         ("hdr_nonutf8_name", b"X-\xc3: v"),
@@ -261,6 +261,8 @@ pub fn corruptions(r: &Req) -> Vec<(&'static str, Vec<u8>)> {
         ("hdr_empty_name", b": value"),
         ("hdr_cr_inside", b"X-A: a\rb"),
         ("hdr_lf_inside", b"X-A: a\nb"),
+        ("hdr_cr_before_crlf", b"X-Trace: 17\r"),
+        ("hdr_crcr_before_crlf", b"X-Trace: 17\r\r"),
         ("hdr_lf_hides_header", b"X-Trace: abc\nX-Other: second"),
         ("hdr_lf_hides_cl", b"X-Trace: abc\nContent-Length: 3"),
     ];
